@@ -41,6 +41,7 @@ var targets = []string{
 	"checkStr", "checkInt", "checkUint", "checkBool", "checkTime",
 	"GetAttrType", "GetAttrTypeString",
 	"deduceRoute", "buildSelfLink", "buildRelationshipLinks",
+	"checkIn", "parseCommaList", "parseFragments",
 }
 
 var (
@@ -165,6 +166,9 @@ func isUnsigned(t types.Type) bool {
 
 type tr struct {
 	translated map[string]bool // targets (lean names) available for calls
+	// inside `for i := range xs`: the objects of xs and i, and the Lean name of the element
+	loopSlice, loopKey types.Object
+	loopElem           string
 }
 
 func (x *tr) constant(e ast.Expr) (string, bool) {
@@ -204,6 +208,9 @@ func (x *tr) expr(e ast.Expr) string {
 			return v.Name
 		}
 		if obj := info.Uses[v]; obj != nil {
+			if x.loopElem != "" && obj == x.loopKey {
+				fail(v, "the loop index is used other than to read the current element")
+			}
 			if _, isVar := obj.(*types.Var); isVar {
 				return local(v.Name)
 			}
@@ -271,6 +278,11 @@ func (x *tr) expr(e ast.Expr) string {
 		}
 		fail(v, "composite literal of %s", t)
 	case *ast.IndexExpr:
+		if xs, ok := v.X.(*ast.Ident); ok && x.loopElem != "" {
+			if k, ok := v.Index.(*ast.Ident); ok && info.Uses[xs] == x.loopSlice && info.Uses[k] == x.loopKey {
+				return x.loopElem
+			}
+		}
 		if _, ok := info.Types[v.X].Type.Underlying().(*types.Slice); ok {
 			if tv := info.Types[v.Index]; tv.Value != nil {
 				k, _ := constant.Int64Val(tv.Value)
@@ -339,6 +351,14 @@ func (x *tr) call(v *ast.CallExpr) string {
 		if f.Name == "len" && len(v.Args) == 1 {
 			return "((" + x.expr(v.Args[0]) + ").length : Int)"
 		}
+		if f.Name == "append" && len(v.Args) == 2 && !v.Ellipsis.IsValid() {
+			return "(" + x.expr(v.Args[0]) + " ++ [" + x.expr(v.Args[1]) + "])"
+		}
+		if f.Name == "make" && len(v.Args) >= 2 && leanType(info.Types[v].Type, v) == "List GoString" {
+			if tv := info.Types[v.Args[1]]; tv.Value != nil && tv.Value.ExactString() == "0" {
+				return "([] : List GoString)"
+			}
+		}
 		if x.translated[f.Name] {
 			args := []string{"Gen." + f.Name}
 			for _, a := range v.Args {
@@ -355,6 +375,10 @@ func (x *tr) call(v *ast.CallExpr) string {
 					return "(hasPrefix " + x.expr(v.Args[0]) + " " + x.expr(v.Args[1]) + ")"
 				case "strings.HasSuffix":
 					return "(List.isSuffixOf " + x.expr(v.Args[1]) + " " + x.expr(v.Args[0]) + ")"
+				case "strings.Split":
+					if tv := info.Types[v.Args[1]]; tv.Value != nil && len(constant.StringVal(tv.Value)) == 1 {
+						return fmt.Sprintf("(splitOn %d %s)", constant.StringVal(tv.Value)[0], x.expr(v.Args[0]))
+					}
 				}
 				fail(v, "call of %s.%s", pkg.Name, f.Sel.Name)
 			}
@@ -635,9 +659,56 @@ func (x *tr) block(stmts []ast.Stmt, ind string) string {
 		}
 		d := append(append([]ast.Stmt{}, def...), stmts[1:]...)
 		return out + "\n" + ind + "  " + x.block(d, ind+"  ")
+	case *ast.RangeStmt:
+		return x.rangeStmt(s, stmts[1:], ind, true)
 	}
 	fail(stmts[0], "statement %T", stmts[0])
 	return ""
+}
+
+// rangeStmt: `for i := range xs { ... }` over a []string, the body reading xs[i] only.
+func (x *tr) rangeStmt(s *ast.RangeStmt, after []ast.Stmt, ind string, mustReturn bool) string {
+	key, ok := s.Key.(*ast.Ident)
+	xs, ok2 := s.X.(*ast.Ident)
+	if !ok || !ok2 || s.Value != nil || s.Tok != token.DEFINE || x.loopElem != "" ||
+		leanType(info.Types[s.X].Type, s) != "List GoString" {
+		fail(s, "range statement outside the subset")
+	}
+	x.loopSlice, x.loopKey, x.loopElem = info.Uses[xs], info.Defs[key], "elem_"
+	defer func() { x.loopSlice, x.loopKey, x.loopElem = nil, nil, "" }()
+	leave := func() { x.loopSlice, x.loopKey, x.loopElem = nil, nil, "" }
+	body := s.Body.List
+	if returns(body) {
+		// one `if c { return e }`: is there an element satisfying c?
+		if len(body) == 1 {
+			if ifs, ok := body[0].(*ast.IfStmt); ok && ifs.Init == nil && ifs.Else == nil && len(ifs.Body.List) == 1 {
+				if ret, ok := ifs.Body.List[0].(*ast.ReturnStmt); ok && mustReturn {
+					cond := x.expr(ifs.Cond)
+					leave()
+					found := x.block([]ast.Stmt{ret}, ind+"  ")
+					return "if (" + local(xs.Name) + ").any (fun elem_ => " + cond + ") then\n" + ind + "  " + found + "\n" + ind + "else\n" + ind + "  " + x.block(after, ind+"  ")
+				}
+			}
+		}
+		fail(s, "loop with a return outside the subset")
+	}
+	vars := map[string]bool{}
+	assigned(body, vars)
+	vs := make([]string, 0, len(vars))
+	for v := range vars {
+		vs = append(vs, v)
+	}
+	sort.Strings(vs)
+	if len(vs) == 0 {
+		fail(s, "loop without effect")
+	}
+	step := x.assignOnly(body, vs, ind+"    ")
+	leave()
+	out := "let " + tuple(vs) + " := (" + local(xs.Name) + ").foldl (fun " + tuple(vs) + " elem_ =>\n" + ind + "    " + step + ") " + tuple(vs) + "\n" + ind
+	if mustReturn {
+		return out + x.block(after, ind)
+	}
+	return out
 }
 
 func (x *tr) joinIf(s *ast.IfStmt, els []ast.Stmt, vs []string, ind string) string {
@@ -740,7 +811,7 @@ func main() {
 		}
 	}
 	fmt.Println("/- GENERATED by harness/cmd/translate from /repo on every run (T1b). Do not edit. -/")
-	fmt.Println("import Jsonapi.Model.Value")
+	fmt.Println("import Jsonapi.Model.Url")
 	fmt.Println("set_option linter.unusedVariables false")
 	fmt.Println("namespace Jsonapi.Gen")
 	fmt.Println("open Jsonapi")
